@@ -192,7 +192,9 @@ def check_polyline(case, out):
         return
     best = min(oracle.point_segment_dist2(q, A, B)[0] for _, _, A, B in segs)
     dmin = math.sqrt(float(best))
-    dret = math.sqrt(float(max(d2)))
+    # the statement allows the returned parameters to differ in distance by 1e-6 (checked above);
+    # "that distance is the minimum" is decided on the best of them
+    dret = math.sqrt(float(min(d2)))
     if dret - dmin > 1e-9 * max(1.0, dmin):
         out.fail("not-nearest", klass,
                  f"point_on_curve({tuple(map(float, q))}) on polyline U={list(map(float, ref.U))} "
@@ -270,7 +272,7 @@ def check_general(case, out):
     d2 = check_common(out, klass, ts, ref, q, snap, curve)
     if d2 is None:
         return
-    dret = math.sqrt(float(max(d2)))
+    dret = math.sqrt(float(min(d2)))
     if case["qkind"] == "on-curve" and dret > 1e-6:
         out.fail("on-curve-not-fixed", klass,
                  f"a point taken on the curve (U={list(map(float, ref.U))} P={[tuple(map(float, p)) for p in ref.P]} w={ref.w}) "
